@@ -93,6 +93,7 @@ type Env struct {
 	LbtcAsset      string
 	CsvBtc, CsvLbtc uint32
 	CurHeight      uint32 // default answer of GetBlockHeight
+	lastTip        uint32 // last height answered by GetBlockHeight
 	Decode         map[string]DecodeRes
 
 	plan     Plan
@@ -389,9 +390,10 @@ func (l *fakeLightning) RebalancePayment(payreq string, channel string, maxTotal
 		ans = strp(e.payPreimage(payreq))
 	}
 	e.served.Pay = append(e.served.Pay, ans)
+	tip := e.lastTip
 	e.mu.Unlock()
-	e.effect(fmt.Sprintf("EPayClaim %s %s %s %s", CoqStr(payreq), CoqStr(channel), CoqZu(uint64(maxTotal)), coqOptStr(ans)),
-		map[string]interface{}{"e": "PayClaim", "payreq": payreq, "scid": channel, "max_total_cltv": maxTotal, "ok": ans != nil})
+	e.effect(fmt.Sprintf("EPayClaim %s %s %s %s %s", CoqStr(payreq), CoqStr(channel), CoqZu(uint64(maxTotal)), CoqZu(uint64(tip)), coqOptStr(ans)),
+		map[string]interface{}{"e": "PayClaim", "payreq": payreq, "scid": channel, "max_total_cltv": maxTotal, "tip": tip, "ok": ans != nil})
 	if ans == nil {
 		return "", errFake
 	}
@@ -496,6 +498,9 @@ func (c *fakeChain) GetBlockHeight() (uint32, error) {
 		e.plan.Height = e.plan.Height[1:]
 	} else {
 		ans = u32p(e.CurHeight)
+	}
+	if ans != nil {
+		e.lastTip = *ans
 	}
 	if e.plan.PayLimit > 0 && len(e.served.Pay) >= e.plan.PayLimit {
 		// height polls after the last served payment attempt are not part of the world
